@@ -81,6 +81,14 @@ CLAIMED = {
             'colour/power/zones/cells were restored exactly, and that the script compiled and ran.',
             'Trusted: SimLan device state bookkeeping (zone message start <= z < end; tile message row-major).',
             'DESIGN.md section 6, C18'),
+    'C17': ('model_checking', 'TLC-generated compile histories replayed into one Parser + TLC trace validation; every execution of run histories validated against Lang.tla from the initial state',
+            'Compile part: TLC enumerates all histories of <= 3 (thorough 4) compile requests over seven text classes (CompileHist.tla); '
+            'each is replayed with concrete texts into one real Parser and every request\'s outcome, listing and messages are compared '
+            'by TLC with a fresh Parser\'s (TraceCompileHist.tla). Run part: generated jobs are executed again after completion, after '
+            'being stopped at instruction k, and followed by a different job in the same world; each execution is validated by TLC '
+            'against Lang.tla starting from Lang\'s initial state, and the compiled program is compared before/after.',
+            'Stops are injected by wrapping Machine._fn_table. Thread-level effects of stop on the real clock are C09/C10.',
+            'DESIGN.md section 6, C17'),
 }
 
 REASONS_PENDING = 'check not built yet in this round (planned in DESIGN.md section 6); no claim is made'
